@@ -117,5 +117,11 @@ def main(tier):
     return ck.finish("per ISA module and mode: the real tree (K) + spec-directed / mutated / truncated / prefixed and random byte strings of length 0..maxlen+4; non-trivial = decodes to an instruction")
 
 
+
+
+def replay(path):
+    import json
+    return isa.replay_decode_case(json.load(open(path)))
+
 if __name__ == "__main__":
     sys.exit(main(sys.argv[1] if len(sys.argv) > 1 else "quick"))
